@@ -260,6 +260,19 @@ def fam_mlflow(nmax: int = 3, *, batch: int = 2) -> Iterator[Config]:
                     yield Config(spec=spec, requested=req, batch=batch, precached=(0,), faults=tuple(i for i in tw if i != 0), fault_exc='mlflow-absent')
 
 
+def fam_history(nmax: int = 2, *, batch: int = 2) -> Iterator[Config]:
+    """The Lab object has already been through a failing Lab.run_task() call; then single faults under
+    both continue_on_failure settings, and fault-free runs."""
+    for n in range(1, nmax + 1):
+        for shape in all_shapes(n):
+            spec = mk_spec(shape)
+            req = tuple((i, False) for i in range(n))
+            for cof in (True, False):
+                yield Config(spec=spec, requested=req, batch=batch, cof=cof, history='failed-run_task')
+                for f in range(n):
+                    yield Config(spec=spec, requested=req, batch=batch, cof=cof, faults=(f,), history='failed-run_task')
+
+
 def fam_corrupt(nmin: int = 2, nmax: int = 3, *, batch: int = 2) -> Iterator[Config]:
     """Warm caches in which the stored result of one entry is damaged (metadata intact): the entry looks
     cached, cannot be loaded - the task fails; it is not re-run behind the caller's back."""
